@@ -163,8 +163,11 @@ CLAIMED = {
     ),
     'C41': dict(
         text='_create_jobs inserts jobs of later updates Pending (fragment contract); every job-selection query requires state Ready; commit_batch_update writes nothing unless the staged count equals the declared one and is the only writer of committed; '
-        'cancel_job_group transfers only rows of committed updates (pointwise aggregate obligation). The obligation that the children statement of mark_job_complete readies only committed children FAILS on the unchanged tree and is listed as known finding F1.',
-        note=COMMON_NOTE + 'Assumed: each procedure/trigger invocation is atomic (serialisable isolation, justified by the lock-discipline obligations); MySQL NULL/boolean semantics as encoded in vc/sqlvc.py; integer column widths sufficient; SQL cannot be executed in this sandbox so counter-models are rows (VIOLATION ... no-failing-input-found). ' + 'One known finding (known_findings.json). Staging rows of never-committed updates and job groups of uncommitted updates are not covered.',
+        'cancel_job_group transfers only rows of committed updates (pointwise aggregate obligation). The obligation that the children statement of mark_job_complete readies only committed children FAILS on the unchanged tree and is listed as known finding F1. '
+        'Wave 4: the whole per-job region of _create_jobs is one contract (row state = computed state, n_pending_parents = number of parent rows in every update); commit_batch_update rewrites only jobs of the update being committed; '
+        'mark_job_complete completes the batch only at the total of COMMITTED updates (batches.n_jobs or a pointwise-checked aggregate over batch_updates); scheduler visibility: every job selection is confined to running groups/batches, '
+        "only commit_batch_update can set 'running', no Python INSERT creates a running group/batch, _create_job_group under a pyvc contract.",
+        note=COMMON_NOTE + 'Assumed: each procedure/trigger invocation is atomic (serialisable isolation, justified by the lock-discipline obligations); MySQL NULL/boolean semantics as encoded in vc/sqlvc.py; integer column widths sufficient; SQL cannot be executed in this sandbox so counter-models are rows (VIOLATION ... no-failing-input-found). ' + 'One known finding (known_findings.json). Assumed as well: invariant K of C06 (batches.n_jobs counts committed updates), the id-range invariant of updates, and that updates staging jobs are committed in order (no later update is committed while update 1 is open - not enforced by the code). Staging rows of never-committed updates, listings of job groups of uncommitted updates and nested-group completion (C06) are not covered.',
         technique='procedure/fragment contracts on real SQL and Python, sqlvc/pyvc -> z3, with a recorded known finding',
         engine='sqlvc+pyvc',
         design_ref='7/C41',
